@@ -1,3 +1,4 @@
+import re
 """Conformance of every recorded invocation with the end-to-end pipeline model spec/Expand.tla.
 
 Two purely mechanical projections of one hook record (no entrait semantics here - that lives in the model):
@@ -54,6 +55,17 @@ def _opt(seg):
     return None
 
 
+def _says_cfg(a):
+    """an attribute that says something about conditional compilation: `cfg(..)`, or `cfg_attr(pred, ..)` that applies a `cfg`
+    (the generator carries both over to the generated methods; the abstraction only counts them)"""
+    if a["kind"] == "cfg":
+        return True
+    if a["kind"] != "cfg_attr":
+        return False
+    import re
+    return re.search(r"(^|[,(])\s*cfg\s*\(", a["text"].split("cfg_attr", 1)[1].split(",", 1)[-1]) is not None
+
+
 def split_attr(attr, target):
     """-> dict(lead, opts, trail, tvis, tname, implkind) or None"""
     segs, trailing = _segments(attr)
@@ -92,7 +104,11 @@ def split_attr(attr, target):
         if o is None:
             return None
         opts.append(o)
-    return {"lead": lead, "opts": opts, "trail": "," if trailing else "", "tvis": tvis, "tname": tname, "implkind": implkind}
+    # a visibility relative to the place of the attribute (`pub(self)`, `pub(super)`, `pub(in self::a)`, `pub(in super::a)`):
+    # head of the path and the rest of it, for the model's module-mode translation
+    m = re.match(r"^pub\((?:in)?(self|super)((?:::.*)?)\)$", tvis)
+    tvisp = {"head": m.group(1), "rest": m.group(2)} if m else {"head": "", "rest": ""}
+    return {"lead": lead, "opts": opts, "trail": "," if trailing else "", "tvis": tvis, "tvisp": tvisp, "tname": tname, "implkind": implkind}
 
 
 # ------------------------------------------------------------------------------------------------------------------
@@ -105,7 +121,7 @@ def _fn_abs(f):
     first = f["first"]
     return {"name": f["name"], "vis": f.get("vis", ""), "async": f["async"],
             "first": {"wrap": first["wrap"], "base": first["base"], "nbounds": first["nbounds"], "basetext": first["basetext"] if "basetext" in first else ""},
-            "nparams": nparams, "ngen": ngen, "ncfg": sum(1 for a in f["attrs"] if a["kind"] == "cfg")}
+            "nparams": nparams, "ngen": ngen, "ncfg": sum(1 for a in f["attrs"] if _says_cfg(a))}
 
 
 def _recv(m):
@@ -126,7 +142,7 @@ def abstract_input(rec):
         return None, "input does not parse as one " + kind
     it = items[0]
     base = {"target": kind, "variant": rec["macro"], "attr": {"lead": a["lead"], "opts": a["opts"], "trail": a["trail"]},
-            "tvis": a["tvis"], "tname": a["tname"], "implkind": a["implkind"], "sub": [x["kind"] for x in it.get("attrs", [])],
+            "tvis": a["tvis"], "tvisp": a["tvisp"], "tname": a["tname"], "implkind": a["implkind"], "sub": [x["kind"] for x in it.get("attrs", [])],
             "fns": [], "items": [], "modname": "", "modvis": "", "delegname": "",
             "tr": {"name": "", "vis": "", "ngen": 0, "gargs": "", "supers": [], "nother": 0, "methods": []},
             "im": {"trait": "", "selfty": ""}}
@@ -217,14 +233,17 @@ def _call(c):
         args = [x.replace(" ", "") for x in c["args"]]
         first = args[0] if args and args[0] == "self" else "-"
         sync = "+Sync" if "+::core::marker::Sync>" in via else ""
-        if via == "self.as_ref()":
-            k = "as_ref"
-        elif via == "self.into_inner()":
-            k = "into_inner"
-        elif via == "self.as_ref().as_ref()":
-            k = "as_ref.as_ref"
-        elif via == "self.as_ref().borrow()":
-            k = "as_ref.borrow"
+        inner = "<::entrait::Impl<EntraitT>as::core::convert::AsRef<EntraitT>>::as_ref(self)"
+        if via == inner:
+            k = "Impl::as_ref"
+        elif via == "::entrait::Impl::<EntraitT>::into_inner(self)":
+            k = "Impl::into_inner"
+        elif via.startswith("<EntraitTas::core::convert::AsRef<dyn") and via.endswith(">>::as_ref(" + inner + ")"):
+            k = "Impl::as_ref>AsRef-dyn"
+        elif via.startswith("<EntraitTas::core::borrow::Borrow<dyn") and via.endswith(">>::borrow(" + inner + ")"):
+            k = "Impl::as_ref>Borrow-dyn"
+        elif via in ("self.as_ref()", "self.into_inner()", "self.as_ref().as_ref()", "self.as_ref().borrow()"):
+            k = "method-syntax:" + via          # at the mercy of the traits in scope
         elif "::core::convert::AsRef<dyn" in via and via.endswith("::as_ref(&*self)"):
             k = "AsRef-dyn" + sync
         elif "::core::borrow::Borrow<dyn" in via and via.endswith("::borrow(&*self)"):
